@@ -528,8 +528,10 @@ impl<'a, R: RealNumberInternalTrait> Interpreter<'a, R> {
                     .imported_library
                     .insert(lib_name.clone().extract_data())
                 {
-                    let library = self.get_library(lib_name.clone())?;
+                    // the import is no longer in progress, whether it succeeded or not
+                    let library = self.get_library(lib_name.clone());
                     self.imported_library.remove(lib_name);
+                    let library = library?;
                     Ok(library
                         .iter_definitions()
                         .map(|(name, value)| (name.clone(), value.clone()))
